@@ -229,8 +229,11 @@ func visitInline(fw *formatWriter, source []byte, cursor *commonmark.Cursor) boo
 	case commonmark.LinkKind:
 		fw.s("[")
 		return true
+	case commonmark.ImageKind:
+		fw.s("![")
+		return true
 	case commonmark.TextKind:
-		if cursor.ParentBlock().Kind().IsCode() {
+		if cursor.ParentBlock().Kind().IsCode() || isVerbatimInline(cursor.Parent().Inline()) {
 			fw.b(spanSlice(source, child.Span()))
 			return false
 		}
@@ -250,6 +253,33 @@ func visitInline(fw *formatWriter, source []byte, cursor *commonmark.Cursor) boo
 		return false
 	case commonmark.InfoStringKind, commonmark.LinkDestinationKind, commonmark.LinkLabelKind, commonmark.LinkTitleKind:
 		return false
+	case commonmark.EmphasisKind, commonmark.StrongKind:
+		// Inside a block quote or list item a node that continues on the next line
+		// has the container's prefix between its children,
+		// so only the node's own delimiters are copied from the source
+		// and its content is written child by child.
+		n := emphasisDelimiterLength(child)
+		if child.ChildCount() == 0 || !child.Span().IsValid() || child.Span().Len() < 2*n {
+			if child.Span().IsValid() {
+				fw.b(spanSlice(source, child.Span()))
+			}
+			return false
+		}
+		fw.b(spanSlice(source, commonmark.Span{Start: child.Span().Start, End: child.Span().Start + n}))
+		return true
+	case commonmark.CodeSpanKind, commonmark.HTMLTagKind, commonmark.AutolinkKind:
+		if n := child.ChildCount(); n > 0 && child.Span().IsValid() {
+			first, last := child.Child(0), child.Child(n-1)
+			if first.Span().IsValid() && last.Span().IsValid() &&
+				child.Span().Start <= first.Span().Start && last.Span().End <= child.Span().End {
+				fw.b(spanSlice(source, commonmark.Span{Start: child.Span().Start, End: first.Span().Start}))
+				return true
+			}
+		}
+		if child.Span().IsValid() {
+			fw.b(spanSlice(source, child.Span()))
+		}
+		return false
 	default:
 		if !child.Span().IsValid() {
 			return false
@@ -262,7 +292,23 @@ func visitInline(fw *formatWriter, source []byte, cursor *commonmark.Cursor) boo
 func postInline(fw *formatWriter, source []byte, cursor *commonmark.Cursor) {
 	child := cursor.Node().Inline()
 	switch child.Kind() {
-	case commonmark.LinkKind:
+	case commonmark.EmphasisKind, commonmark.StrongKind:
+		// Closing delimiter (visitInline only descends into well-formed nodes).
+		fw.b(spanSlice(source, commonmark.Span{Start: child.Span().End - emphasisDelimiterLength(child), End: child.Span().End}))
+	case commonmark.CodeSpanKind, commonmark.HTMLTagKind, commonmark.AutolinkKind:
+		// Closing delimiter (visitInline only descends into nodes with well-formed children).
+		last := child.Child(child.ChildCount() - 1)
+		closing := spanSlice(source, commonmark.Span{Start: last.Span().End, End: child.Span().End})
+		if lastText := spanSlice(source, last.Span()); len(closing) > 0 && (hasSuffix(lastText, "\n") || hasSuffix(lastText, "\r")) {
+			// The delimiter starts a line: what precedes it there is the container's prefix.
+			i := len(closing)
+			for i > 0 && closing[i-1] == closing[len(closing)-1] {
+				i--
+			}
+			closing = closing[i:]
+		}
+		fw.b(closing)
+	case commonmark.LinkKind, commonmark.ImageKind:
 		fw.s("]")
 		if ref := child.LinkReference(); ref != "" {
 			if isShortcutLinkOrImage(child) {
@@ -327,6 +373,30 @@ func codeFenceChar(source []byte, block *commonmark.Block) byte {
 	} else {
 		return '`'
 	}
+}
+
+// isVerbatimInline reports whether the text children of the inline node are written as they are.
+func isVerbatimInline(parent *commonmark.Inline) bool {
+	if parent == nil {
+		return false
+	}
+	switch parent.Kind() {
+	case commonmark.CodeSpanKind, commonmark.AutolinkKind, commonmark.HTMLTagKind:
+		return true
+	default:
+		return false
+	}
+}
+
+func emphasisDelimiterLength(inline *commonmark.Inline) int {
+	if inline.Kind() == commonmark.StrongKind {
+		return 2
+	}
+	return 1
+}
+
+func hasSuffix(b []byte, suffix string) bool {
+	return len(b) >= len(suffix) && string(b[len(b)-len(suffix):]) == suffix
 }
 
 func codeFenceLength(source []byte, block *commonmark.Block) int {
